@@ -92,7 +92,9 @@ def run(R):
         c.check(ok, cp, h, 'EIO from the child side ends interact (child closed the pty)', kind='ast', tag='eio-break')
         last = h.body[-1]
         c.check(isinstance(last, ast.Raise) and last.exc is None, cp, h, 'other OSErrors propagate', kind='ast', tag='other-raise')
-        emp = [t for t in g.nodes if t.kind == 'test' and norm(t.ast) in ("data == b''", 'not data')]
+        crd = [n for n, k in cfg_nodes_with_call(cp, lambda k: callee_last(k).endswith('__interact_read') and norm(k.args[0]) == 'self.child_fd')]
+        cv = crd[0].ast.targets[0].id if crd and isinstance(crd[0].ast, ast.Assign) else 'data'
+        emp = [t for t in g.nodes if t.kind == 'test' and norm(t.ast) in ("%s == b''" % cv, 'not %s' % cv)]
         brk = [n for t in emp for n in guard_region(g, t, 'true') if n.kind == 'stmt' and isinstance(n.ast, ast.Break)]
         c.check(bool(brk), cp, emp[0].ast if emp else None, 'an empty read from the child ends interact', kind='path', tag='empty-break')
 
@@ -105,7 +107,8 @@ def check_copy(c, cp, wr):
         srcfd = norm(k.args[0])
         v = n.ast.targets[0].id
         if srcfd == 'self.child_fd':
-            guard = [t for t in g.nodes if t.kind == 'test' and norm(t.ast) == 'self.child_fd in r']
+            guard = [t for t in g.nodes if t.kind == 'test' and compare_parts(t.ast) and isinstance(compare_parts(t.ast)[1], ast.In)
+                     and norm(compare_parts(t.ast)[0]) == 'self.child_fd' and isinstance(compare_parts(t.ast)[2], ast.Name)]
             c.check(len(guard) == 1 and n in guard_region(g, guard[0], 'true'), cp, k, 'the child is read only when it is readable', tag='child-ready')
             outs = cfg_nodes_with_call(cp, lambda kk: dotted(kk.func) == 'os.write')
             c.need(len(outs) == 1, 'os.write to stdout not found')
@@ -119,7 +122,8 @@ def check_copy(c, cp, wr):
             okp, p = g.must_pass(n, {nn for nn, _ in reads if nn is not n} | {g.exit}, {on}, skip_labels=('exc',), through_edges=exits)
             c.check(okp, cp, ok_, 'every non-empty chunk from the child reaches stdout before the next read', witness=g.describe_path(p) if p else None, tag='child-delivered')
         elif 'STDIN' in srcfd:
-            guard = [t for t in g.nodes if t.kind == 'test' and norm(t.ast) == 'self.STDIN_FILENO in r']
+            guard = [t for t in g.nodes if t.kind == 'test' and compare_parts(t.ast) and isinstance(compare_parts(t.ast)[1], ast.In)
+                     and norm(compare_parts(t.ast)[0]) == 'self.STDIN_FILENO' and isinstance(compare_parts(t.ast)[2], ast.Name)]
             c.check(len(guard) == 1 and n in guard_region(g, guard[0], 'true'), cp, k, 'the keyboard is read only when it is readable', tag='stdin-ready')
             ws = cfg_nodes_with_call(cp, lambda kk: callee_last(kk).endswith('__interact_writen'))
             c.need(len(ws) >= 1, 'no write towards the child found')
